@@ -394,3 +394,88 @@ def compare(pat_a: Union[str, bytes], pat_b: Union[str, bytes], flags_a: int = 0
     al = alphabet_for([ra, rb])
     da, db = compile_dfa(ra, al), compile_dfa(rb, al)
     return difference_witness(da, db), difference_witness(db, da), {"alphabet": len(al), "states_a": da.n, "states_b": db.n}
+
+
+# ----------------------------------------------------------------------------- language transformers
+def determinise(alphabet: List[int], starts: Iterable, step, accepting) -> DFA:
+    """Subset construction over an implicit NFA without epsilon moves: `step(q, ch)` -> iterable of states,
+    `accepting(q)` -> bool.  Used for the images of a regular language under str methods."""
+    dfa = DFA(alphabet)
+    start = frozenset(starts)
+    index = {start: 0}
+    order = [start]
+    dfa.delta.append({})
+    dfa.accept.append(any(accepting(q) for q in start))
+    i = 0
+    while i < len(order):
+        cur = order[i]
+        for ch in alphabet:
+            tg = frozenset(t for q in cur for t in step(q, ch))
+            if tg not in index:
+                index[tg] = len(order)
+                order.append(tg)
+                dfa.delta.append({})
+                dfa.accept.append(any(accepting(q) for q in tg))
+                if len(order) > 20000:
+                    raise Unsupported("DFA too large")
+            dfa.delta[i][ch] = index[tg]
+        i += 1
+    return dfa
+
+
+def intersect(a: DFA, b: DFA) -> DFA:
+    assert a.alphabet == b.alphabet
+    return determinise(a.alphabet, [(0, 0)], lambda q, ch: [(a.delta[q[0]][ch], b.delta[q[1]][ch])], lambda q: a.accept[q[0]] and b.accept[q[1]])
+
+
+def _closure_over(d: DFA, chars: Set[int], frm: Iterable[int]) -> Set[int]:
+    seen = set(frm)
+    st = list(seen)
+    while st:
+        q = st.pop()
+        for c in chars:
+            if c in d.delta[q]:
+                t = d.delta[q][c]
+                if t not in seen:
+                    seen.add(t)
+                    st.append(t)
+    return seen
+
+
+def rstrip_lang(d: DFA, chars: Iterable[int]) -> DFA:
+    """{ s.rstrip(chars) : s in L(d) }"""
+    cs = {c for c in chars if c in set(d.alphabet)}
+    # q is accepting' if an accepting state is reachable from q by chars*
+    acc = {q for q in range(d.n) if any(d.accept[t] for t in _closure_over(d, cs, [q]))}
+    return determinise(d.alphabet, [(0, False)], lambda q, ch: [(d.delta[q[0]][ch], ch in cs)], lambda q: q[0] in acc and not q[1])
+
+
+def lstrip_lang(d: DFA, chars: Iterable[int]) -> DFA:
+    """{ s.lstrip(chars) : s in L(d) }"""
+    cs = {c for c in chars if c in set(d.alphabet)}
+    starts = [(q, True) for q in _closure_over(d, cs, [0])]
+
+    def step(q, ch):
+        if q[1] and ch in cs:
+            return []  # the result does not start with a stripped character
+        return [(d.delta[q[0]][ch], False)]
+
+    return determinise(d.alphabet, starts, step, lambda q: d.accept[q[0]])
+
+
+def map_lang(d: DFA, f) -> DFA:
+    """{ ''.join(f(c) for c in s) : s in L(d) } for a per-character map f: int -> int staying inside the alphabet."""
+    al = set(d.alphabet)
+    inv: Dict[int, List[int]] = {}
+    live = d.live_states()
+    used = {c for q in live for c, t in d.delta[q].items() if t in live}
+    for c in sorted(used):
+        t = f(c)
+        if t not in al:
+            raise Unsupported(f"character map leaves the alphabet at {c!r}")
+        inv.setdefault(t, []).append(c)
+    return determinise(d.alphabet, [0], lambda q, ch: [d.delta[q][c] for c in inv.get(ch, ())], lambda q: d.accept[q])
+
+
+def dfa_of(pattern: str, alphabet: List[int], flags: int = 0) -> DFA:
+    return compile_dfa(Regex(pattern, flags), alphabet)
